@@ -238,6 +238,12 @@ func runC20(c *Ctx) {
 	c20ErrorFormatWired(c)
 	c20ExitCodeSurvives(c)
 	c20GroupingKeepsOrder(c)
+	// the printers' own write errors are what turns "annotations were printed" (exit 100) into an operational failure:
+	// no error-returning call of bufanalysis may go unconsumed (a deferred bufio Flush, for instance) - shared with C15
+	c.Rule("R-ERRUSE", "no unconsumed error in the annotation printers", 5)
+	if q := c.P.Pkg("private/bufpkg/bufanalysis"); q != nil {
+		ruleErrUse(c, "R-ERRUSE", []*packages.Package{q}, func(string) (bool, string) { return true, "" }, c15AllowedErrUse)
+	}
 }
 
 var c20ControllerNoAnnotations = map[string]string{
